@@ -85,6 +85,8 @@ func c10Sig(cs c10Case, msg string) string {
 	w := strings.SplitN(p, " ", 2)[0]
 	w = strings.SplitN(w, ":", 2)[0]
 	switch {
+	case strings.Contains(msg, "makechan"):
+		return "client-controlled-huge-allocation"
 	case strings.HasPrefix(msg, "panic") && strings.Contains(msg, "readcommand.go") && strings.Contains(msg, "slice bounds"):
 		return "panic-read-command-too-few-arguments"
 	case strings.HasPrefix(msg, "panic") && strings.Contains(msg, "tokensConsume"):
@@ -129,8 +131,11 @@ func c10Seq(alpha []string, maxLen int, sep string, f func(string)) {
 func c10Cases(thorough bool, emit func(c10Case)) {
 	probe := Scratch() + "/c10/probe.log"
 	words := []string{"cat", "grep", "tail", "map", ".ack", "health", "timeout", "", "bogus"}
-	opts := []string{"", ":", ":plain=true", ":max=x", ":before=1:after", ":a=base64%!!", ":quiet=true:serverless=true", ":max=1:before=2:after=2"}
-	toks := []string{probe, "/nonexistent/x", "", "*", "regex:default x", "regex:invert [", "regex", "regex:bogus,, y", "close", "connection", "regex:noop "}
+	opts := []string{"", ":", ":plain=true", ":max=x", ":before=1:after", ":a=base64%!!", ":quiet=true:serverless=true", ":max=1:before=2:after=2",
+		":before=9999999999", ":before=-1:after=-5:max=-2", ":after=99999999999999999999", ":before=4294967296:max=1"}
+	dir := Scratch() + "/c10"
+	toks := []string{probe, "/nonexistent/x", "", "*", "regex:default x", "regex:invert [", "regex", "regex:bogus,, y", "close", "connection", "regex:noop ",
+		dir + "//*.log", dir + "/./p*.log", dir + "/../c10/*.log", dir + "/*/../*.log", "//"}
 	n := 2
 	if thorough {
 		n = 3
@@ -190,7 +195,7 @@ func init() {
 	Register(&Check{
 		ID:    "C10",
 		Level: "exploration",
-		Rule: "client inputs enumerated exhaustively from token alphabets: 9 command words x 8 option suffixes x all sequences of <=2 (quick) / <=3 (thorough) of 11 argument tokens; " +
+		Rule: "client inputs enumerated exhaustively from token alphabets: 9 command words x 12 option suffixes (incl. huge and negative context values) x all sequences of <=2 (quick) / <=3 (thorough) of 16 argument tokens (incl. globs in unclean path form); " +
 			"'map' + all sequences of <=3 / <=4 of 28 query tokens; map followed by a read command; all <=4-token sequences of 8 protocol-envelope tokens; 3 commands split across two Write " +
 			"calls at every byte; 8 inputs to a health session.  Each is fed to a real ServerHandler/HealthHandler under the controlled scheduler (panic in ANY goroutine is caught), " +
 			"then a second user's session on the same limiters must still deliver its file.  non-trivial = distinct input strings",
